@@ -16,6 +16,9 @@ TmplRules(t) ==
       [] t = "t11" -> {[h |-> "h1.local", p |-> "/a", ty |-> "prefix", s |-> "s1"], [h |-> "h1.local", p |-> "/a", ty |-> "exact", s |-> "s2"]}
       [] t = "t12" -> {[h |-> "h2.local", p |-> "/", ty |-> "begin", s |-> "s1"]}
       [] t = "t13" -> {[h |-> "*.h1.local", p |-> "/", ty |-> "begin", s |-> "s2"]}
+      [] t = "t14" -> {[h |-> "h2.local", p |-> "/Up", ty |-> "exact", s |-> "s2"], [h |-> "h2.local", p |-> "/Pre", ty |-> "prefix", s |-> "s1"]}
+      [] t = "t15" -> {[h |-> "<default>", p |-> "/", ty |-> "exact", s |-> "s1"]}
+      [] t = "t16" -> {[h |-> "<default>", p |-> "/", ty |-> "begin", s |-> "s2"]}
       [] OTHER -> {}
 
 TmplBackend(t, h, p, ty) ==
@@ -32,6 +35,9 @@ TmplBackend(t, h, p, ty) ==
       [] t = "t11" -> (CASE h = "h1.local" /\ p = "/a" /\ ty = "prefix" -> "s1" [] h = "h1.local" /\ p = "/a" /\ ty = "exact" -> "s2" [] OTHER -> "none")
       [] t = "t12" -> (CASE h = "h2.local" /\ p = "/" /\ ty = "begin" -> "s1" [] OTHER -> "none")
       [] t = "t13" -> (CASE h = "*.h1.local" /\ p = "/" /\ ty = "begin" -> "s2" [] OTHER -> "none")
+      [] t = "t14" -> (CASE h = "h2.local" /\ p = "/Up" /\ ty = "exact" -> "s2" [] h = "h2.local" /\ p = "/Pre" /\ ty = "prefix" -> "s1" [] OTHER -> "none")
+      [] t = "t15" -> (CASE h = "<default>" /\ p = "/" /\ ty = "exact" -> "s1" [] OTHER -> "none")
+      [] t = "t16" -> (CASE h = "<default>" /\ p = "/" /\ ty = "begin" -> "s2" [] OTHER -> "none")
       [] OTHER -> "none"
 
 TmplTLS(t) ==
@@ -48,6 +54,9 @@ TmplTLS(t) ==
       [] t = "t11" -> {}
       [] t = "t12" -> {}
       [] t = "t13" -> {[h |-> "*.h1.local", c |-> "c1"]}
+      [] t = "t14" -> {}
+      [] t = "t15" -> {}
+      [] t = "t16" -> {}
       [] OTHER -> {}
 
 TmplSecret(t, h) ==
@@ -64,6 +73,9 @@ TmplSecret(t, h) ==
       [] t = "t11" -> "none"
       [] t = "t12" -> "none"
       [] t = "t13" -> (CASE h = "*.h1.local" -> "c1" [] OTHER -> "none")
+      [] t = "t14" -> "none"
+      [] t = "t15" -> "none"
+      [] t = "t16" -> "none"
       [] OTHER -> "none"
 
 EpsReady(e) ==
@@ -72,6 +84,7 @@ EpsReady(e) ==
       [] e = "e2" -> {"1", "2"}
       [] e = "e3" -> {"2"}
       [] e = "e4" -> {"1", "2", "3"}
+      [] e = "e5" -> {"1", "4"}
       [] OTHER -> {}
 
 InitEps(s) == IF s = "s1" THEN "e1" ELSE "e2"
@@ -82,20 +95,23 @@ EpsNotReady(e) ==
       [] e = "e2" -> {}
       [] e = "e3" -> {"3"}
       [] e = "e4" -> {}
+      [] e = "e5" -> {}
       [] OTHER -> {}
 
 PathChars(p) ==
     CASE p = "/" -> <<"/">>
+      [] p = "/Pre" -> <<"/", "P", "r", "e">>
+      [] p = "/Up" -> <<"/", "U", "p">>
       [] p = "/a" -> <<"/", "a">>
       [] p = "/a/b" -> <<"/", "a", "/", "b">>
       [] OTHER -> <<>>
 
-ReqPaths == <<<<"/">>, <<"/", "a">>, <<"/", "a", "/">>, <<"/", "a", "/", "b">>, <<"/", "a", "/", "b", "/", "c">>, <<"/", "a", "b">>, <<"/", "A">>, <<"/", "x">>>>
+ReqPaths == <<<<"/">>, <<"/", "a">>, <<"/", "a", "/">>, <<"/", "a", "/", "b">>, <<"/", "a", "/", "b", "/", "c">>, <<"/", "a", "b">>, <<"/", "A">>, <<"/", "x">>, <<"/", "U", "p">>, <<"/", "u", "p">>, <<"/", "P", "r", "e", "/", "x">>, <<"/", "p", "r", "e", "/", "x">>>>
 
 ReqHosts == <<[name |-> "h1.local", chars |-> <<"h", "1", ".", "l", "o", "c", "a", "l">>], [name |-> "h2.local", chars |-> <<"h", "2", ".", "l", "o", "c", "a", "l">>], [name |-> "h1.local", chars |-> <<"H", "1", ".", "L", "O", "C", "A", "L">>], [name |-> "x.local", chars |-> <<"x", ".", "l", "o", "c", "a", "l">>]>>
 
 ReqSNI == <<[name |-> "h1.local", chars |-> <<"h", "1", ".", "l", "o", "c", "a", "l">>, wild |-> ""], [name |-> "h2.local", chars |-> <<"h", "2", ".", "l", "o", "c", "a", "l">>, wild |-> ""], [name |-> "a.h1.local", chars |-> <<"a", ".", "h", "1", ".", "l", "o", "c", "a", "l">>, wild |-> "*.h1.local"], [name |-> "b.a.h1.local", chars |-> <<"b", ".", "a", ".", "h", "1", ".", "l", "o", "c", "a", "l">>, wild |-> ""], [name |-> "x.local", chars |-> <<"x", ".", "l", "o", "c", "a", "l">>, wild |-> ""], [name |-> "h1.local.x", chars |-> <<"h", "1", ".", "l", "o", "c", "a", "l", ".", "x">>, wild |-> ""]>>
 
-AllTmplIds == {"t1", "t2", "t3", "t4", "t5", "t6", "t7", "t8", "t9", "t10", "t11", "t12", "t13"}
+AllTmplIds == {"t1", "t2", "t3", "t4", "t5", "t6", "t7", "t8", "t9", "t10", "t11", "t12", "t13", "t14", "t15", "t16"}
 
 =============================================================================
